@@ -265,7 +265,13 @@ func (e boundary) genPlan(r *core.PRNG) *BPlan {
 					// with the default type int, where such a constant does not fit
 					lit = core.Pick(r, []int64{4278190080, 1700000000000, 1 << 31, -3000000000, math.MaxInt32, math.MinInt32, math.MaxUint32, 1 << 40})
 				}
-				args = append(args, BArg{Kind: "lit", Lit: BVal{K: "untyped", I: lit}})
+				arg := BArg{Kind: "lit", Lit: BVal{K: "untyped", I: lit}}
+				if r.Chance(1, 6) {
+					// a rune literal: the native receives its code point
+					ru := core.Pick(r, []rune{'a', 'é', 'ÿ', 'Ā', '世', '€', '😀', ' ', '~'})
+					arg.Lit = BVal{K: "untyped", I: int64(ru), S: string(ru)}
+				}
+				args = append(args, arg)
 			case k < 8:
 				args = append(args, BArg{Kind: "lit", Lit: core.Pick(r, []BVal{{K: "string", S: "lit"}, {K: "bool", I: 1}, {K: "float64", F: 2.5}, {K: "nil"}})})
 			case k < 9 && ctx == "loop":
@@ -458,6 +464,9 @@ func (e boundary) RunUnit(seed uint64, tier string, unit int, exec func(plan any
 func bLit(v BVal) string {
 	switch v.K {
 	case "untyped":
+		if v.S != "" {
+			return "'" + v.S + "'"
+		}
 		return fmt.Sprint(v.I)
 	case "string":
 		return fmt.Sprintf("%q", v.S)
